@@ -1,4 +1,4 @@
-// @unit id=v_send props=C17,C04,C16,C02,C06,C07,C08,C14,C15 tier=quick rlimit=100
+// @unit id=v_send props=C17,C04,C16,C02,C06,C07,C08,C14,C15,C13,C05,C01 tier=quick rlimit=100
 // Verus contracts on the real bodies of src/proto/streams/send.rs, extracted on every run, on top of the verified
 // scheduler (inc/prioritize.inc).  Modular: callees are used through their contracts.
 use vstd::prelude::*;
@@ -74,6 +74,26 @@ impl Clone for Waker {
 }
 
 pub enum Poll<T> { Ready(T), Pending }
+
+/// Send::check_headers(frame.fields()) — RFC 9113 8.2.2 connection-specific fields; its verdict is carried by the reduced frame
+pub fn check_headers_verdict(fields_ok: bool) -> (r: Result<(), UserError>)
+    ensures fields_ok ==> r is Ok, !fields_ok ==> r == Err::<(), UserError>(UserError::MalformedHeaders),
+{ if fields_ok { Ok(()) } else { Err(UserError::MalformedHeaders) } }
+
+/// counts.peer().is_local_init(id): the stream id belongs to this endpoint's half of the id space (peer.rs; asserts id != 0)
+pub uninterp spec fn local_init_spec(c: Counts, id: StreamId) -> bool;
+pub struct PeerView { pub c: Ghost<Counts> }
+impl PeerView {
+    #[verifier::external_body]
+    pub fn is_local_init(&self, id: StreamId) -> (r: bool)
+        requires id.0 != 0,
+        ensures r == local_init_spec(self.c@, id),
+    { unimplemented!() }
+}
+impl Counts {
+    #[verifier::external_body]
+    pub fn peer(&self) -> (r: PeerView) ensures r.c@ == *self { unimplemented!() }
+}
 
 impl Stream {
     //@extract src/proto/streams/stream.rs Stream::wait_send
@@ -155,6 +175,94 @@ impl Send {
     //@spec         // C06: Pending only after the waker has been stored
     //@spec         r is Pending ==> final(stream).send_task is Some,
     //@spec         final(stream).send_flow == old(stream).send_flow && final(stream).state == old(stream).state && final(stream).buffered_send_data == old(stream).buffered_send_data,
+    //@end
+
+    // ---- sending the parts of a message (C04 / C13 / C01 / C06).  On EVERY refusal — a field section Send::check_headers
+    // rejects (connection-specific fields, RFC 9113 8.2.2), a stream state that does not allow the frame, push disabled by
+    // the peer — NOTHING is queued and the stream is exactly as it was: the endpoint cannot be made to emit an illegal or
+    // malformed sequence, and a refused call can be retried with a valid one.  On success exactly that frame is appended at
+    // the BACK of the stream's queue, the state moves as RFC 9113 5.1 says, a locally initiated stream that is not a push
+    // waits for a concurrency slot (pending_open) instead of pending_send, and the connection task is woken.
+    // Listed substitutions: generics / Ptr types; `Self::check_headers(frame.fields())?` => the verdict recorded in the
+    // reduced frame (`check_headers_verdict`); `frame.into()` => the Frame variant.
+    //@extract src/proto/streams/send.rs Send::send_headers
+    //@subst send_headers<B>(=>send_headers(
+    //@subst buffer: &mut Buffer<Frame<B>>=>buffer: &mut Buffer
+    //@subst stream: &mut store::Ptr=>stream: &mut Stream
+    //@subst_opt_re Self::check_headers\(frame\.fields\(\)\)\?; ==>> check_headers_verdict(frame.fields_ok)?;
+    //@subst_re \.queue_frame\(frame\.into\(\), buffer, stream, task\);=>.queue_frame(Frame::Headers(frame), buffer, stream, task);
+    //@ret r
+    //@spec     requires
+    //@spec         frame.stream_id.0 != 0,
+    //@spec         // a stream this endpoint opens with these HEADERS has never been scheduled (the debug_assert of NextOpen::set_queued)
+    //@spec         (local_init_spec(*old(counts), frame.stream_id) && !old(stream).is_pending_push) ==> !old(stream).is_pending_send,
+    //@spec     ensures
+    //@spec         final(self).prioritize.flow == old(self).prioritize.flow && final(self).init_window_sz == old(self).init_window_sz,
+    //@spec         // refused: nothing happened
+    //@spec         (!frame.fields_ok) ==> r == Err::<(), UserError>(UserError::MalformedHeaders) && *final(stream) == *old(stream) && *final(task) == *old(task),
+    //@spec         (frame.fields_ok && old(stream).state.after_send_open(frame.eos) is None) ==> r == Err::<(), UserError>(UserError::UnexpectedFrameType)
+    //@spec             && *final(stream) == *old(stream) && *final(task) == *old(task),
+    //@spec         // accepted
+    //@spec         (frame.fields_ok && (old(stream).state.after_send_open(frame.eos) matches Some(n))) ==> r is Ok
+    //@spec             && final(stream).state.inner == old(stream).state.after_send_open(frame.eos)->Some_0
+    //@spec             && final(stream).pending_send@ == old(stream).pending_send@.push(Frame::Headers(frame))
+    //@spec             // C05: a stream this endpoint initiates (and that is not a promised stream) waits for a slot
+    //@spec             && (final(stream).is_pending_open == (old(stream).is_pending_open || (local_init_spec(*old(counts), frame.stream_id) && !old(stream).is_pending_push)))
+    //@spec             // C06: somebody is told — the connection task is woken
+    //@spec             && ((*final(task) is None) || ((old(stream).is_pending_push || old(stream).is_pending_open) && *final(task) == *old(task))),
+    //@end
+
+    //@extract src/proto/streams/send.rs Send::send_interim_informational_headers
+    //@subst send_interim_informational_headers<B>(=>send_interim_informational_headers(
+    //@subst buffer: &mut Buffer<Frame<B>>=>buffer: &mut Buffer
+    //@subst stream: &mut store::Ptr=>stream: &mut Stream
+    //@subst_opt_re Self::check_headers\(frame\.fields\(\)\)\?; ==>> check_headers_verdict(frame.fields_ok)?;
+    //@subst_re assert!\(frame\.is_informational\(\),\s*".*?"\);=>assert!(frame.is_informational());
+    //@subst_re assert!\(!frame\.is_end_stream\(\),\s*".*?"\);=>assert!(!frame.is_end_stream());
+    //@subst_re \.queue_frame\(frame\.into\(\), buffer, stream, task\);=>.queue_frame(Frame::Headers(frame), buffer, stream, task);
+    //@ret r
+    //@spec     requires frame.fields_ok ==> frame.informational && !frame.eos,      // the two real debug_assert!s (share.rs validates at the API boundary)
+    //@spec     ensures
+    //@spec         (!frame.fields_ok) ==> r == Err::<(), UserError>(UserError::MalformedHeaders) && *final(stream) == *old(stream) && *final(task) == *old(task),
+    //@spec         // a 1xx response does not move the state machine
+    //@spec         frame.fields_ok ==> r is Ok && final(stream).state == old(stream).state && final(stream).pending_send@ == old(stream).pending_send@.push(Frame::Headers(frame)),
+    //@end
+
+    //@extract src/proto/streams/send.rs Send::send_push_promise
+    //@subst send_push_promise<B>(=>send_push_promise(
+    //@subst buffer: &mut Buffer<Frame<B>>=>buffer: &mut Buffer
+    //@subst stream: &mut store::Ptr=>stream: &mut Stream
+    //@subst_opt_re Self::check_headers\(frame\.fields\(\)\)\?; ==>> check_headers_verdict(frame.fields_ok)?;
+    //@subst_re \.queue_frame\(frame\.into\(\), buffer, stream, task\);=>.queue_frame(Frame::PushPromise(frame), buffer, stream, task);
+    //@ret r
+    //@spec     ensures
+    //@spec         // RFC 9113 6.6 / 6.5.2: never a PUSH_PROMISE to a peer that set SETTINGS_ENABLE_PUSH = 0
+    //@spec         !old(self).is_push_enabled ==> r == Err::<(), UserError>(UserError::PeerDisabledServerPush) && *final(stream) == *old(stream) && *final(task) == *old(task),
+    //@spec         (old(self).is_push_enabled && !frame.fields_ok) ==> r == Err::<(), UserError>(UserError::MalformedHeaders) && *final(stream) == *old(stream) && *final(task) == *old(task),
+    //@spec         (old(self).is_push_enabled && frame.fields_ok) ==> r is Ok && final(stream).pending_send@ == old(stream).pending_send@.push(Frame::PushPromise(frame))
+    //@spec             && final(stream).state == old(stream).state,
+    //@end
+
+    //@extract src/proto/streams/send.rs Send::send_trailers
+    //@subst send_trailers<B>(=>send_trailers(
+    //@subst buffer: &mut Buffer<Frame<B>>=>buffer: &mut Buffer
+    //@subst stream: &mut store::Ptr=>stream: &mut Stream
+    //@subst_opt_re Self::check_headers\(frame\.fields\(\)\)\?; ==>> check_headers_verdict(frame.fields_ok)?;
+    //@subst_re \.queue_frame\(frame\.into\(\), buffer, stream, task\);=>.queue_frame(Frame::Headers(frame), buffer, stream, task);
+    //@ret r
+    //@spec     requires
+    //@spec         wf_send(*old(stream)) && wf_pool(old(self).prioritize),
+    //@spec         old(self).prioritize.flow.a() + old(stream).send_flow.a() <= 0x7fff_ffff,
+    //@spec         old(stream).buffered_send_data <= 0xff_ffff_ffff,
+    //@spec         !(old(stream).is_pending_open && old(stream).is_pending_push),
+    //@spec     ensures
+    //@spec         (!frame.fields_ok) ==> r == Err::<(), UserError>(UserError::MalformedHeaders) && *final(stream) == *old(stream) && *final(task) == *old(task) && final(self).prioritize.flow == old(self).prioritize.flow,
+    //@spec         // trailers only while the send half is streaming (after HEADERS, before END_STREAM)
+    //@spec         (frame.fields_ok && !old(stream).state.send_streaming()) ==> r == Err::<(), UserError>(UserError::UnexpectedFrameType) && *final(stream) == *old(stream) && *final(task) == *old(task),
+    //@spec         // accepted: the send half is closed, the trailers are the LAST frame of the queue, excess capacity goes back
+    //@spec         (frame.fields_ok && old(stream).state.send_streaming()) ==> r is Ok && final(stream).state.send_closed()
+    //@spec             && final(stream).pending_send@ == old(stream).pending_send@.push(Frame::Headers(frame))
+    //@spec             && final(self).prioritize.flow.a() + final(stream).send_flow.a() <= old(self).prioritize.flow.a() + old(stream).send_flow.a(),
     //@end
 
     //@extract src/proto/streams/send.rs Send::send_reset
